@@ -573,6 +573,9 @@ func c05ClosingBreak(c *Ctx) {
 		decs            []string
 	}{
 		{"IndexListExpr.Indices newline", "package p\n\nvar x = g[e1, e2]\n", "package p\n\nvar x = g[\n\te1,\n\te2,\n]\n", []string{"\n"}},
+		// a variadic call: the point between the "..." and the closing parenthesis
+		{"CallExpr.Ellipsis newline", "package p\n\nvar x = g(e1, e2...)\n", "package p\n\nvar x = g(\n\te1,\n\te2...,\n)\n", []string{"\n"}},
+		{"CallExpr.Ellipsis line comment", "package p\n\nvar x = g(e1, e2...)\n", "package p\n\nvar x = g(\n\te1,\n\te2..., // c\n)\n", []string{"// c"}},
 		{"IndexListExpr.Indices line comment", "package p\n\nvar x = g[e1, e2]\n", "package p\n\nvar x = g[\n\te1,\n\te2, // c\n]\n", []string{"// c"}},
 	} {
 		f, err := decorator.Parse(tc.src)
@@ -589,6 +592,11 @@ func c05ClosingBreak(c *Ctx) {
 		case *dst.IndexExpr:
 			x.Index.Decorations().Before = dst.NewLine
 			x.Decs.Index.Replace(tc.decs...)
+		case *dst.CallExpr:
+			for _, e := range x.Args {
+				e.Decorations().Before = dst.NewLine
+			}
+			x.Decs.Ellipsis.Replace(tc.decs...)
 		}
 		key := "closing-break|" + tc.name
 		c.Eval(key, true)
